@@ -1,3 +1,163 @@
+// govc: a contract-based deductive verifier for the Go code of foxglove/mcap (see /verif/DESIGN.md).
 package main
 
-func main() {}
+import (
+	"flag"
+	"fmt"
+	"os"
+	"regexp"
+	"sort"
+	"strings"
+	"time"
+
+	"golang.org/x/tools/go/ssa"
+)
+
+var repoDir = "/repo"
+var verifDir = "/verif"
+
+var pkgDirs = map[string]string{"mcap": "go/mcap", "ros": "go/ros", "ros1msg": "go/ros/ros1msg"}
+
+func main() {
+	if len(os.Args) < 2 {
+		fmt.Fprintln(os.Stderr, "usage: govc <verify|check|ledger|selftest|axioms> ...")
+		os.Exit(2)
+	}
+	switch os.Args[1] {
+	case "verify":
+		cmdVerify(os.Args[2:])
+	case "check":
+		cmdCheck(os.Args[2:])
+	case "axioms":
+		os.Exit(cmdAxioms())
+	default:
+		fmt.Fprintln(os.Stderr, "unknown command", os.Args[1])
+		os.Exit(2)
+	}
+}
+
+func loadWorld(pkgs []string) *World {
+	var dirs []string
+	for _, p := range pkgs {
+		d, ok := pkgDirs[p]
+		if !ok {
+			fmt.Fprintln(os.Stderr, "unknown package", p)
+			os.Exit(2)
+		}
+		dirs = append(dirs, d)
+	}
+	w, err := load(repoDir, dirs, verifDir+"/stubs")
+	if err != nil {
+		fmt.Fprintln(os.Stderr, "govc: load failed:", err)
+		os.Exit(2)
+	}
+	return w
+}
+
+// cmdVerify: development command — verify functions matching a regexp and print every obligation that fails.
+func cmdVerify(args []string) {
+	fs := flag.NewFlagSet("verify", flag.ExitOnError)
+	pkg := fs.String("pkg", "mcap", "package(s), comma separated")
+	pat := fs.String("func", ".", "regexp on function keys")
+	timeout := fs.Int("t", 10, "solver timeout (s)")
+	dump := fs.String("dump", "", "directory to dump VCs")
+	verbose := fs.Bool("v", false, "list all obligations")
+	tag := fs.String("tag", "", "only obligations with this tag")
+	safety := fs.String("safety", "C10", "default safety tag")
+	thorough := fs.Bool("thorough", false, "all solvers")
+	fs.Parse(args)
+	t0 := time.Now()
+	w := loadWorld(strings.Split(*pkg, ","))
+	fmt.Printf("load+ssa %.1fs, %d functions\n", time.Since(t0).Seconds(), len(w.funcs))
+	for _, e := range w.contractErrors() {
+		fmt.Println("CONTRACT ERROR:", e)
+	}
+	re := regexp.MustCompile(*pat)
+	var units []*UnitResult
+	for _, fn := range w.funcs {
+		if !re.MatchString(funcKey(fn)) {
+			continue
+		}
+		if fn.Origin() != nil && fn.Origin() != fn {
+			// instantiations: verify each
+		}
+		t1 := time.Now()
+		u := w.verifyUnit(fn, []string{*safety})
+		u.Seconds = time.Since(t1).Seconds()
+		units = append(units, u)
+	}
+	filter := func(o *Oblig) bool {
+		if *tag == "" {
+			return true
+		}
+		for _, t := range o.Tags {
+			if t == *tag {
+				return true
+			}
+		}
+		return false
+	}
+	t2 := time.Now()
+	solveAll(units, filter, *timeout, *thorough, *dump)
+	fmt.Printf("solve %.1fs\n", time.Since(t2).Seconds())
+	total, failed := 0, 0
+	for _, u := range units {
+		nf := 0
+		n := 0
+		for _, o := range u.Obs {
+			if !filter(o) {
+				continue
+			}
+			n++
+			if o.Status != "unsat" {
+				nf++
+			}
+		}
+		total += n
+		failed += nf
+		fmt.Printf("%-55s obligations=%d failed=%d gen=%.2fs%s\n", u.Pkg+" "+u.Key, n, nf, u.Seconds, notes(u))
+		for _, se := range u.SpecErrs {
+			fmt.Println("    SPEC ERROR:", se)
+		}
+		for _, o := range u.Obs {
+			if !filter(o) {
+				continue
+			}
+			if o.Status != "unsat" || *verbose {
+				fmt.Printf("    %-8s %-7s %s   (%s:%d) %.2fs %v\n", o.Status, o.Solver, o.name, shortFile(o.Pos.Filename), o.Pos.Line, o.Seconds, o.Tags)
+			}
+		}
+	}
+	fmt.Printf("TOTAL obligations=%d failed=%d\n", total, failed)
+}
+
+func notes(u *UnitResult) string {
+	var parts []string
+	add := func(label string, m map[string]int) {
+		if len(m) == 0 {
+			return
+		}
+		var ks []string
+		for k, v := range m {
+			ks = append(ks, fmt.Sprintf("%s×%d", k, v))
+		}
+		sort.Strings(ks)
+		parts = append(parts, label+"="+strings.Join(ks, ","))
+	}
+	add("out-of-subset", u.Unsupp)
+	add("unmodelled", u.Unmod)
+	add("imprecise", u.Imprecise)
+	if len(parts) == 0 {
+		return ""
+	}
+	return "  " + strings.Join(parts, " ")
+}
+
+func shortFile(s string) string {
+	i := strings.LastIndex(s, "/")
+	return s[i+1:]
+}
+
+func cmdCheck(args []string) { fmt.Println("not yet") }
+
+var _ = ssa.InstantiateGenerics
